@@ -98,9 +98,12 @@ def build(name, log=sys.stderr):
         if os.path.exists(os.path.join(d, ".ok")):
             return d
         # prune stale builds of this world
-        for e in os.listdir(BUILD):
-            if e.startswith(name + "-") and e != os.path.basename(d) and len(e) == len(name) + 13:
-                shutil.rmtree(os.path.join(BUILD, e), ignore_errors=True)
+        # (keep the most recent other build: a seeded-change run against a scratch copy of the repository and a run against
+        # /repo itself alternate, and must not evict each other's build while the other is still running)
+        olds = [e for e in os.listdir(BUILD) if e.startswith(name + "-") and e != os.path.basename(d) and len(e) == len(name) + 13]
+        olds.sort(key=lambda e: os.path.getmtime(os.path.join(BUILD, e)), reverse=True)
+        for e in olds[1:]:
+            shutil.rmtree(os.path.join(BUILD, e), ignore_errors=True)
         shutil.rmtree(d, ignore_errors=True)
         os.makedirs(d)
         t0 = time.time()
